@@ -6,10 +6,10 @@ import (
 	"math/rand"
 	"strings"
 
+	tmbytes "github.com/cometbft/cometbft/libs/bytes"
 	"github.com/cosmos/cosmos-sdk/codec"
 	sdk "github.com/cosmos/cosmos-sdk/types"
 	gogotypes "github.com/cosmos/gogoproto/types"
-	tmbytes "github.com/cometbft/cometbft/libs/bytes"
 
 	"verif/harness/chain"
 
